@@ -3,7 +3,7 @@ import ast
 
 from ..cfg import CFG
 from ..report import AnalysisError, norm
-from ..srcmodel import own_nodes, own_statements
+from ..srcmodel import own_nodes, own_statements, program_order
 from ..strbuild import DEN, NEG, NUM, POS, Builder
 from ..accum import accumulations as _accumulations, entry_path as _entry_path
 from ..terms import Resolver, alternatives, show, walk
@@ -85,7 +85,7 @@ def r1_typestate(rep, ctx):
         by_node = {}
         for kind, node, st in b.events:
             by_node.setdefault(id(node), []).append((kind, st))
-        for node, _ in sorted(_appends(fn.node, b.family), key=lambda x: (x[0].lineno, x[0].col_offset)):
+        for node, _ in sorted(_appends(fn.node, b.family), key=lambda x, _k=program_order(fn.node): _k(x[0])):
             total += 1
             key = "%s:%s" % (name, norm(ast.unparse(node)))
             evs = by_node.get(id(node), [])
